@@ -294,7 +294,8 @@ pub fn h_drain_view<K: Shape, V: Shape, const N: usize>() {
             if i < take {
                 let it = d.next();
                 if i < pre.len {
-                    assert!(it.is_some() && same_pair(&it.unwrap(), &pre.slot(i)), "C01.drain: yields the stored entries");
+                    // which entry comes when is C10's business (order-agnostic there)
+                    assert!(it.is_some() && pre.count(&it.unwrap().0) == 1, "C01.drain: yields stored entries");
                 } else {
                     assert!(it.is_none(), "C01.drain: yields nothing beyond the stored entries");
                 }
